@@ -2,7 +2,10 @@ SPECIFICATION Spec
 CONSTANTS
   MaxB = 3
   NPs = {1, 2}
+  MaxPost = 1
+  Reserve = TRUE
   Titles <- TitleClasses
   Emit = TRUE
 INVARIANTS RefinesForest RefinesAdjust RefinesFresh RefinesLinks RefinesCarries RefinesToc Verdict EmitInv
+PROPERTIES Reserved
 CHECK_DEADLOCK FALSE
